@@ -11,11 +11,12 @@ import (
 	"path/filepath"
 	"regexp"
 	"runtime"
+	"runtime/debug"
+	"runtime/pprof"
 	"sort"
 	"strconv"
 	"strings"
 	"sync"
-	"syscall"
 	"time"
 
 	"verif/harness"
@@ -36,6 +37,7 @@ var (
 	list     = flag.Bool("list", false, "list units")
 	budget   = flag.Int("budget", 0, "override wall-clock budget in seconds")
 	only     = flag.String("only", "", "only units whose name contains this")
+	cpuprof  = flag.String("cpuprofile", "", "worker mode: write a CPU profile")
 )
 
 func main() {
@@ -78,14 +80,45 @@ func worker(units []harness.Unit) {
 		fmt.Fprintf(os.Stderr, "unknown unit %q\n", *unitName)
 		os.Exit(2)
 	}
-	if !vrace.Enabled {
-		lim := uint64(12 << 30)
-		syscall.Setrlimit(syscall.RLIMIT_AS, &syscall.Rlimit{Cur: lim, Max: lim})
+	// The engine creates an s2.Writer (two MB-sized buffers and a sync.Pool that stays reachable for two
+	// GC cycles) for every encoded block. Measured in this sandbox: with a large GC goal the live heap
+	// grows geometrically and page faults dominate; GOGC=50 with one P keeps the heap small and hot and
+	// is ~9x faster end to end.
+	runtime.GOMAXPROCS(1)
+	debug.SetGCPercent(50)
+	go func() { // memory watchdog: the sandbox has no memory limit
+		for {
+			time.Sleep(2 * time.Second)
+			var ms runtime.MemStats
+			runtime.ReadMemStats(&ms)
+			if ms.Sys > 10<<30 && !vrace.Enabled {
+				fmt.Fprintf(os.Stderr, "worker exceeds 10 GiB (%d MiB): giving up\n", ms.Sys>>20)
+				os.Exit(3)
+			}
+		}
+	}()
+	if g := os.Getenv("VERIF_GOGC"); g != "" {
+		n, _ := strconv.Atoi(g)
+		debug.SetGCPercent(n)
 	}
-	runtime.GOMAXPROCS(2)
 	var dl time.Time
 	if *deadline > 0 {
 		dl = time.Unix(*deadline, 0)
+	}
+	if hp := os.Getenv("VERIF_HEAPPROF"); hp != "" {
+		go func() {
+			time.Sleep(3 * time.Second)
+			f, _ := os.Create(hp)
+			pprof.Lookup("heap").WriteTo(f, 0)
+			f.Close()
+			fmt.Fprintln(os.Stderr, "goroutines:", runtime.NumGoroutine())
+			os.Exit(0)
+		}()
+	}
+	if *cpuprof != "" {
+		f, _ := os.Create(*cpuprof)
+		pprof.StartCPUProfile(f)
+		defer pprof.StopCPUProfile()
 	}
 	harness.RunUnit(*prop, *tier, *u, dl, nil, *outPath)
 }
